@@ -960,7 +960,10 @@ impl Hub {
 
     /// hand every configured owner to `newowner`, sent by the genesis owner (children through their factory).
     /// Returns one entry per step: (contract whose owner moves, Ok / error text).
-    pub fn transfer_ownership(&mut self) -> Vec<(&'static str, Result<(), String>)> {
+    /// `rich`: the hand-over message also writes other, valid fields where the message has them (seed C16-S:
+    /// a 3pool `UpdateConfig` that schedules an amp ramp dropped the owner sent in the same message)
+    pub fn transfer_ownership(&mut self, rich: bool) -> Vec<(&'static str, Result<(), String>)> {
+        let ramp = if rich { Some(trio::RampAmp { future_a: 150, future_block: self.app.block_info().height + 20_000 }) } else { None };
         let n = Some(self.n.to_string());
         let o = self.o.clone();
         let mut out = vec![];
@@ -997,7 +1000,7 @@ impl Hub {
                 fee_collector_addr: None,
                 pool_fees: None,
                 feature_toggle: None,
-                amp_factor: None,
+                amp_factor: ramp,
             }),
         );
         run(
